@@ -43,6 +43,7 @@ func main() {
 	fs.Parse(os.Args[2:])
 
 	t0 := time.Now()
+	replayRepo = *repo
 	e := NewEngine(*repo)
 	e.verbose = *verbose
 	if err := e.Load(); err != nil {
@@ -243,6 +244,13 @@ func main() {
 				inBase := baseline == nil || baseline[o.Key]
 				if o.Status == "unknown" && !inBase {
 					rp := writeReplay(outDir, p, o)
+					if replayReproduced(o) {
+						// the scripted scenario of this obligation family fails on the real code
+						lines = append(lines, fmt.Sprintf("VIOLATION property=%s replay=%s obligation=%s", p, rp, o.Name))
+						violations++
+						exit = 1
+						continue
+					}
 					lines = append(lines, fmt.Sprintf("UNDECIDED property=%s obligation=%s (new obligation, solver undecided) %s detail=%s", p, o.Name, o.Pos, rp))
 					if exit == 0 {
 						exit = 2
@@ -251,7 +259,7 @@ func main() {
 				}
 				rp := writeReplay(outDir, p, o)
 				suffix := ""
-				if o.Status != "refuted" || !replayReproduced(o) {
+				if !replayReproduced(o) {
 					suffix = " no-failing-input-found"
 				}
 				lines = append(lines, fmt.Sprintf("VIOLATION property=%s replay=%s obligation=%s%s", p, rp, o.Name, suffix))
